@@ -17,7 +17,7 @@ SPEC = dict(
                "the same names and ResetMetrics() is called. Monitors are paused and resumed (Enable(false); Enable(true), EnableMonitoring, EnablePerformanceMonitoring) "
                "with nothing recorded in between, and the totals re-checked; in the concurrent engine every goroutine also registers series of its own "
                "(distinct tags of one name, all four kinds) while the others register theirs, and every handle is looked up again after Wait. Names, tag values and operation names include pairs that are not valid UTF-8 and differ in that one byte (caf\\xe9.yml / caf\\xe8.yml); histograms with bucket bounds of the caller's own "
-               "(negative, zero, very wide) are filled and their percentiles probed every half per cent. Generated identities and schedules only: exploration, not proof.",
+               "(negative, zero, very wide) are filled and their percentiles probed every half per cent. Between record calls the objects' other methods are called (RecordMemoryUsage, IsEnabled, a report read twice, a Benchmarker on the monitor, StartMemoryMonitoring for a few ticks; on the wrapper BenchmarkSearch, ProfileSearchMemory, SearchPerformanceAnalyzer - whose monitored searches are operations that count - and the reading ones, which must count nothing). Generated identities and schedules only: exploration, not proof.",
     level_note="Trusted: the harness ledger (atomic adds in the same step as the call), the Go race detector for unsynchronised access, "
                "float64 exactness of integer sums below 2^53. Schedules are whatever the Go scheduler produces with Gosched between calls "
                "and a barrier in front of every first creation; no schedule enumeration.",
@@ -32,10 +32,10 @@ SPEC = dict(
          "renderings coincide (':' '=' ',' separators and empty strings inside names, keys, values); its findings carry clause key-ambiguity.",
     floors=T({"evaluations": 120000, "distinct_nontrivial": 1800, "identities-0tag": 300, "identities-1tag": 500, "identities-2+tags": 1800,
               "monitor-search-ops": 17000, "monitor-db-ops": 16000, "concurrent-ops": 70000, "percentile-checks": 5500,
-              "monitored-database-rounds": 40, "goroutines-16": 6, "quiescent-checks": 1000, "collector-resets": 150, "package-level-monitor-rounds": 25, "default-collector-resets": 40, "many-series-probes": 9, "custom-bucket-histograms": 24, "monitor-paused-and-resumed": 150, "distinct-series-registered-concurrently": 30000, "non-finite-observations": 80, "exported-percentile-checks": 3000, "exported-percentiles-two-in-the-overflow-bucket": 1000},
+              "monitored-database-rounds": 40, "goroutines-16": 6, "quiescent-checks": 1000, "collector-resets": 150, "package-level-monitor-rounds": 25, "default-collector-resets": 40, "many-series-probes": 9, "custom-bucket-histograms": 24, "monitor-paused-and-resumed": 150, "monitor-bystander-calls": 2500, "distinct-series-registered-concurrently": 30000, "non-finite-observations": 80, "exported-percentile-checks": 3000, "exported-percentiles-two-in-the-overflow-bucket": 1000},
              {"evaluations": 3000000, "distinct_nontrivial": 80000, "identities-0tag": 14000, "identities-1tag": 24000, "identities-2+tags": 85000,
               "monitor-search-ops": 500000, "monitor-db-ops": 450000, "concurrent-ops": 700000, "percentile-checks": 260000,
-              "monitored-database-rounds": 1500, "goroutines-16": 60, "quiescent-checks": 44000, "collector-resets": 20000, "package-level-monitor-rounds": 4000, "default-collector-resets": 5000, "many-series-probes": 18, "custom-bucket-histograms": 400, "monitor-paused-and-resumed": 10000, "distinct-series-registered-concurrently": 1000000, "non-finite-observations": 10000, "exported-percentile-checks": 100000, "exported-percentiles-two-in-the-overflow-bucket": 40000}),
+              "monitored-database-rounds": 1500, "goroutines-16": 60, "quiescent-checks": 44000, "collector-resets": 20000, "package-level-monitor-rounds": 4000, "default-collector-resets": 5000, "many-series-probes": 18, "custom-bucket-histograms": 400, "monitor-paused-and-resumed": 10000, "monitor-bystander-calls": 60000, "distinct-series-registered-concurrently": 1000000, "non-finite-observations": 10000, "exported-percentile-checks": 100000, "exported-percentiles-two-in-the-overflow-bucket": 40000}),
     assumptions=[
         "observations are non-negative integers below 2^38 and at most a few thousand per histogram, so the float64 sum is exact in any order",
         "counters are driven with Inc and Add(k), 0 <= k <= 1000; gauges with Inc/Dec/Add of integers (Set is last-writer-wins and is not compared)",
